@@ -269,6 +269,20 @@ fn generate(ctx: &mut Ctx) -> Vec<Value> {
         }
     }
 
+    // C'. The stored version has a BER framed (non-DER) manifest, accepted in lax mode: the
+    //     fallback must still find and use it.
+    let mut setup_ber = setup("kid", 2, false, &["missing"]);
+    setup_ber.world.ca_mut("kid").unwrap().versions[0].mft_publish = Publish::Ber;
+    for variant in setup_ber.variants.iter().filter(|v| v.fault.is_some()) {
+        for perm in perms(setup_ber.entries) {
+            ctx.nontrivial(format!("stored-ber {:?} order={:?}", variant.fault, perm));
+            cases.push(case_json(&setup_ber, &opts, vec![
+                run(&setup_ber, T0, Some(setup_ber.v1), Order::Sorted),
+                run(&setup_ber, T0 + 900, Some(variant.index), Order::Table(vec![perm.clone()])),
+            ], 1));
+        }
+    }
+
     // D. ASPA, router certificates, GBR; longer histories with seeded orders:
     //    v1, broken v2, (complete v2 | v3 | broken again | v1 replayed).
     let setup_rich = setup("kid", 4, true, &["missing", "corrupt"]);
